@@ -37,7 +37,7 @@ def obligations(tier):
         o.append(E1('write-read-merge/nb%d' % nb, H, SRC, d + ['-DMODE=4'], unwind=nb * 32 + 2, backends=SAT, timeout=300,
                     bounds='two arbitrary filter states of %d block(s), symbolic hashes' % nb,
                     functions=['carquet_bloom_filter_write', 'carquet_bloom_filter_read', 'carquet_bloom_filter_merge'] + FN_BLOOM, stub_realloc=False))
-    typed = [(0, 'i32', 4), (1, 'i64', 8), (4, 'bytes3', 3), (4, 'bytes9', 9)]
+    typed = [(0, 'i32', 4), (1, 'i64', 8), (4, 'bytes0', 0), (4, 'bytes3', 3), (4, 'bytes9', 9)]
     # float/double through E1 give no verdict in 300 s on any back end (float-typed parameter + multiplier chains);
     # they are attempted in the thorough tier only and otherwise covered by the E2 obligations
     if not quick:
@@ -45,7 +45,7 @@ def obligations(tier):
     for t, nm, ln in typed:
         o.append(E1('typed-insert/%s' % nm, H, SRC, ['-DNB=1', '-DMODE=5', '-DTYPED=%d' % t, '-DLEN=%d' % ln], unwind=66, backends=MUL, timeout=300,
                     bounds='arbitrary 1-block state, every value of the type (float/double: every non-NaN value; bytes: length %d)' % ln, cvc5_int=False,
-                    functions=['carquet_bloom_filter_insert_%s' % nm.rstrip('39'), 'carquet_xxhash64'] + FN_BLOOM, stub_realloc=False))
+                    functions=['carquet_bloom_filter_insert_%s' % nm.rstrip('039'), 'carquet_xxhash64'] + FN_BLOOM, stub_realloc=False))
     # every length class of the algorithm: <32 (no stripe loop), 32..63 (one stripe), >= 64 (stripe loop iterates), with every tail
     # shape (8-byte steps, 4-byte step, single bytes) behind it
     lens = (list(range(0, 131)) + [159, 160, 161, 192, 255, 256, 257]) if not quick else \
@@ -57,7 +57,7 @@ def obligations(tier):
     H2 = 'harness/e2/c20_bloom.c'
     # (API-level conformance with several blocks stays with E1: z3 gives no verdict on the byte-wise comparison in 600 s, while
     #  CBMC+cvc5 decides sbbf-conformance/nb1..nb4 and the block-index lemma covers every block count)
-    for t, nm in enumerate(['i32', 'i64', 'float', 'double', 'bytes5']):
+    for t, nm in enumerate(['i32', 'i64', 'float', 'double', 'bytes0,1,4,5']):
         o.append(E2('typed-insert-e2/%s' % nm, H2, SRC, ['-DMODE=2', '-DNB=1', '-DTYPED=%d' % t], leaks=True, timeout=600, fork_max=16,
                     bounds='arbitrary 1-block state, EVERY bit pattern of the value (floats/doubles incl. NaN payloads and -0.0)'))
     return o
